@@ -647,4 +647,273 @@ theorem rewriteExecute_no_panic (fo : FloatOps) (g : Nat → Bytes → Out Bytes
         | err => simp
         | ok p' => simp
 
+/-! ## F. the whole parameter block: `GetBindParameters` on the specification encoding -/
+
+/-- the byte with bit `j` set iff `c j` -/
+def byteOf (c : Nat → Bool) : Nat :=
+  (List.range 8).foldl (fun acc bit => if c bit then acc + 2^bit else acc) 0
+
+theorem byteOf_eq (c : Nat → Bool) :
+    byteOf c = (if c 0 then 1 else 0) + (if c 1 then 2 else 0) + (if c 2 then 4 else 0) + (if c 3 then 8 else 0) +
+      (if c 4 then 16 else 0) + (if c 5 then 32 else 0) + (if c 6 then 64 else 0) + (if c 7 then 128 else 0) := by
+  unfold byteOf
+  simp only [List.range, List.range.loop, List.foldl]
+  cases c 0 <;> cases c 1 <;> cases c 2 <;> cases c 3 <;> cases c 4 <;> cases c 5 <;> cases c 6 <;> cases c 7 <;> rfl
+
+theorem byteOf_lt (c : Nat → Bool) : byteOf c < 256 := by
+  rw [byteOf_eq]
+  cases c 0 <;> cases c 1 <;> cases c 2 <;> cases c 3 <;> cases c 4 <;> cases c 5 <;> cases c 6 <;> cases c 7 <;> decide
+
+theorem byteOf_bit (c : Nat → Bool) (k : Nat) (hk : k < 8) : (byteOf c >>> k) % 2 = if c k then 1 else 0 := by
+  rw [byteOf_eq]
+  have : k = 0 ∨ k = 1 ∨ k = 2 ∨ k = 3 ∨ k = 4 ∨ k = 5 ∨ k = 6 ∨ k = 7 := by omega
+  rcases this with rfl | rfl | rfl | rfl | rfl | rfl | rfl | rfl <;>
+    cases c 0 <;> cases c 1 <;> cases c 2 <;> cases c 3 <;> cases c 4 <;> cases c 5 <;> cases c 6 <;> cases c 7 <;> decide
+
+theorem execBitmap_length (vals : List (Option Bytes)) : (execBitmap vals).length = (vals.length + 7) / 8 := by
+  simp [execBitmap]
+
+theorem execBitmap_get (vals : List (Option Bytes)) (byte : Nat) (h : byte < (vals.length + 7) / 8) :
+    (execBitmap vals)[byte]? = some (UInt8.ofNat (byteOf fun bit => decide (vals[byte * 8 + bit]? = some none))) := by
+  unfold execBitmap
+  rw [List.getElem?_map, List.getElem?_range h]
+  simp [byteOf]
+
+/-- reading bit `i` of the NULL bitmap the way `GetBindParameters` does gives "parameter `i` is NULL" -/
+theorem execBitmap_bit (vals : List (Option Bytes)) (i : Nat) (hi : i < vals.length) :
+    ∃ b, goIndex (execBitmap vals) (i / 8) = .ok b ∧
+      (decide ((b.toNat >>> (i % 8)) % 2 = 1) = decide (vals[i]? = some none)) := by
+  have hb : i / 8 < (vals.length + 7) / 8 := by omega
+  have hg := execBitmap_get vals (i / 8) hb
+  have hlt : i / 8 < (execBitmap vals).length := by rw [execBitmap_length]; exact hb
+  refine ⟨UInt8.ofNat (byteOf fun bit => decide (vals[i / 8 * 8 + bit]? = some none)), ?_, ?_⟩
+  · unfold goIndex
+    rw [hg]
+  · have hlt256 := byteOf_lt (fun bit => decide (vals[i / 8 * 8 + bit]? = some none))
+    have htn : (UInt8.ofNat (byteOf fun bit => decide (vals[i / 8 * 8 + bit]? = some none))).toNat =
+        byteOf fun bit => decide (vals[i / 8 * 8 + bit]? = some none) := by
+      simp [UInt8.toNat_ofNat']
+      omega
+    rw [htn, byteOf_bit _ (i % 8) (by omega)]
+    have hidx : i / 8 * 8 + i % 8 = i := by omega
+    simp only [hidx]
+    cases hd : decide (vals[i]? = some none) <;> simp
+
+/-! ### one value -/
+
+/-- a wire value is well-formed for its type: fixed-width numerics have their storage width, everything else fits a
+length-encoded string -/
+def WireOk (t : Nat) (v : Bytes) : Prop :=
+  match storageBytes t with
+  | some sb => v.length = sb
+  | none => v.length < 2^64
+
+/-- the value Acra holds (as text) for a parameter of type `t` whose wire value is `v` (`none` = NULL) -/
+def boundOf (fo : FloatOps) (t : Nat) (v : Option Bytes) : BoundValue :=
+  match v with
+  | none => ⟨t, none⟩
+  | some v =>
+    match storageBytes t with
+    | none => ⟨t, some v⟩
+    | some _ =>
+      match decodeKind t with
+      | some (.int w) => ⟨t, some (fmtInt (toSigned (8 * w) (leVal v)))⟩
+      | some (.float w) => ⟨t, some (fo.fmt w v)⟩
+      | _ => ⟨t, none⟩
+
+/-- `NewMysqlBoundValue` on the wire form of a well-formed value followed by anything: the text value of the
+specification, consuming exactly the bytes of the value -/
+theorem newBoundValue_encodeParamVal (fo : FloatOps) (t : Nat) (v rest : Bytes) (h : WireOk t v) :
+    newBoundValue fo (encodeParamVal t v ++ rest) t = .ok (boundOf fo t (some v), (encodeParamVal t v).length) := by
+  unfold WireOk at h
+  unfold encodeParamVal boundOf
+  cases hs : storageBytes t with
+  | none =>
+    rw [hs] at h
+    simp only
+    exact (value_roundtrip_str fo t v v rest hs h).1
+  | some sb =>
+    rw [hs] at h
+    simp only
+    rcases tables_agree t sb hs with ⟨hd, _⟩ | ⟨hd, _⟩ | ⟨hd, _, h0⟩
+    · unfold newBoundValue
+      simp only [hs, hd]
+      rw [if_neg (by simp only [List.length_append]; omega), List.take_left' h, h]
+      rfl
+    · unfold newBoundValue
+      simp only [hs, hd]
+      rw [if_neg (by simp only [List.length_append]; omega), List.take_left' h, h]
+      rfl
+    · unfold newBoundValue
+      simp only [hs, hd]
+      subst h0
+      rw [h]
+      rfl
+
+/-! ### the type list -/
+
+def typeBytes (types : List (Nat × Nat)) : Bytes := types.flatMap (fun tf => [UInt8.ofNat tf.1, UInt8.ofNat tf.2])
+
+theorem typeBytes_length (types : List (Nat × Nat)) : (typeBytes types).length = 2 * types.length := by
+  induction types with
+  | nil => rfl
+  | cons x xs ih => simp [typeBytes, List.flatMap_cons] at ih ⊢; omega
+
+theorem readTypes_typeBytes (pre post : Bytes) (types : List (Nat × Nat)) (hty : ∀ tf ∈ types, tf.1 < 256) :
+    readTypes (pre ++ typeBytes types ++ post) types.length pre.length = .ok (types.map (·.1)) := by
+  induction types generalizing pre with
+  | nil => rfl
+  | cons x xs ih =>
+    obtain ⟨t, f⟩ := x
+    have ht : t < 256 := hty (t, f) List.mem_cons_self
+    have e : pre ++ typeBytes ((t, f) :: xs) ++ post = (pre ++ [UInt8.ofNat t, UInt8.ofNat f]) ++ typeBytes xs ++ post := by
+      simp [typeBytes, List.flatMap_cons, List.append_assoc]
+    have hidx : goIndex (pre ++ typeBytes ((t, f) :: xs) ++ post) pre.length = .ok (UInt8.ofNat t) := by
+      unfold goIndex
+      simp [typeBytes, List.flatMap_cons, List.append_assoc]
+    have hrec := ih (pre ++ [UInt8.ofNat t, UInt8.ofNat f]) (fun tf h => hty tf (List.mem_cons_of_mem _ h))
+    rw [← e] at hrec
+    have hlen : (pre ++ [UInt8.ofNat t, UInt8.ofNat f]).length = pre.length + 2 := by simp
+    rw [hlen] at hrec
+    rw [List.length_cons]
+    unfold readTypes
+    rw [hidx, Out.bind_ok, hrec, Out.bind_ok]
+    simp [UInt8.toNat_ofNat']
+    omega
+
+/-! ### the value loop -/
+
+/-- all parameters of an execute as Acra holds them -/
+def boundAll (fo : FloatOps) : List (Nat × Nat) → List (Option Bytes) → List BoundValue
+  | tf :: ts, v :: vs => boundOf fo tf.1 v :: boundAll fo ts vs
+  | _, _ => []
+
+/-- **the value loop of `GetBindParameters` reads what the specification encoder writes**: on the value block of
+`types`/`vals` (the parameters from index `k` on) placed at `pos` behind any bytes, with the NULL bitmap of the whole
+parameter list, it returns the specification's values – NULL exactly where the bitmap says so, every other value
+consumed with exactly its wire length -/
+theorem readVals_encode (fo : FloatOps) (allVals : List (Option Bytes)) (post : Bytes)
+    (types : List (Nat × Nat)) (vals : List (Option Bytes)) (pre : Bytes) (k : Nat)
+    (hsuf : allVals.drop k = vals) (hl : types.length = vals.length)
+    (hw : ∀ (j t f : Nat) (v : Bytes), types[j]? = some (t, f) → vals[j]? = some (some v) → WireOk t v) :
+    readVals fo (pre ++ encodeParamVals types vals ++ post) (execBitmap allVals) (types.map (·.1)) k pre.length =
+      .ok (boundAll fo types vals) := by
+  induction vals generalizing types pre k with
+  | nil =>
+    have : types = [] := List.eq_nil_of_length_eq_zero (by simpa using hl)
+    subst this
+    rfl
+  | cons v vs ih =>
+    match types, hl with
+    | (t, f) :: ts, hl =>
+      have hl' : ts.length = vs.length := by simpa using hl
+      have hk : k < allVals.length := by
+        rcases Nat.lt_or_ge k allVals.length with h | h
+        · exact h
+        · rw [List.drop_eq_nil_of_le h] at hsuf; cases hsuf
+      have hget : allVals[k]? = some v := by
+        have := congrArg (fun l => l[0]?) hsuf
+        simpa [List.getElem?_drop] using this
+      have hsuf' : allVals.drop (k + 1) = vs := by
+        have := congrArg (List.drop 1) hsuf
+        simpa [List.drop_drop, Nat.add_comm] using this
+      obtain ⟨b, hb, hbit⟩ := execBitmap_bit allVals k hk
+      have hblen : (execBitmap allVals).length > 0 := by
+        rw [execBitmap_length]; omega
+      have hw' : ∀ (j t' f' : Nat) (x : Bytes), ts[j]? = some (t', f') → vs[j]? = some (some x) → WireOk t' x :=
+        fun j t' f' x h1 h2 => hw (j + 1) t' f' x (by simpa using h1) (by simpa using h2)
+      simp only [List.map_cons]
+      unfold readVals
+      rw [if_pos hblen, hb]
+      simp only [Out.bind_ok, Out.pure_eq]
+      rw [hbit, hget]
+      cases v with
+      | none =>
+        simp only [decide_true, if_true]
+        have e : encodeParamVals ((t, f) :: ts) (none :: vs) = encodeParamVals ts vs := rfl
+        rw [e, ih ts pre (k + 1) hsuf' hl' hw']
+        rfl
+      | some x =>
+        have hne : decide ((some (some x) : Option (Option Bytes)) = some none) = false := by simp
+        rw [hne]
+        simp only [Bool.false_eq_true, if_false]
+        have hwx : WireOk t x := hw 0 t f x rfl rfl
+        have e : pre ++ encodeParamVals ((t, f) :: ts) (some x :: vs) ++ post =
+            pre ++ (encodeParamVal t x ++ (encodeParamVals ts vs ++ post)) := by
+          simp [encodeParamVals, List.append_assoc]
+        have e2 : pre ++ encodeParamVals ((t, f) :: ts) (some x :: vs) ++ post =
+            (pre ++ encodeParamVal t x) ++ encodeParamVals ts vs ++ post := by
+          simp [encodeParamVals, List.append_assoc]
+        have hfrom : goSliceFrom (pre ++ encodeParamVals ((t, f) :: ts) (some x :: vs) ++ post) pre.length =
+            .ok (encodeParamVal t x ++ (encodeParamVals ts vs ++ post)) := by
+          rw [e]; exact goSliceFrom_append pre _
+        rw [hfrom, Out.bind_ok, newBoundValue_encodeParamVal fo t x _ hwx, Out.bind_ok]
+        simp only
+        have hrec := ih ts (pre ++ encodeParamVal t x) (k + 1) hsuf' hl' hw'
+        rw [← e2, List.length_append] at hrec
+        rw [hrec]
+        rfl
+
+/-! ### the whole parameter block -/
+
+/-- **`GetBindParameters` reads what the specification encoder writes**: on a COM_STMT_EXECUTE payload built by
+`encodeExecute` (10-byte head, NULL bitmap, new-params-bound flag 1, `n ≥ 1` (type, flag) pairs, the wire values of the
+non-NULL parameters) it returns the specification's list of values. -/
+theorem getBindParameters_encodeExecute (fo : FloatOps) (head : Bytes) (types : List (Nat × Nat))
+    (vals : List (Option Bytes)) (hh : head.length = 10) (hl : types.length = vals.length) (hn : 0 < vals.length)
+    (hty : ∀ tf ∈ types, tf.1 < 256)
+    (hw : ∀ (j t f : Nat) (v : Bytes), types[j]? = some (t, f) → vals[j]? = some (some v) → WireOk t v) :
+    getBindParameters fo (encodeExecute head types vals) vals.length = .ok (some (boundAll fo types vals)) := by
+  have hbl := execBitmap_length vals
+  have htl := typeBytes_length types
+  have e0 : encodeExecute head types vals =
+      head ++ execBitmap vals ++ [1] ++ typeBytes types ++ encodeParamVals types vals := rfl
+  have e1 : encodeExecute head types vals =
+      head ++ execBitmap vals ++ ([1] ++ typeBytes types ++ encodeParamVals types vals) := by
+    rw [e0]; simp [List.append_assoc]
+  have e2 : encodeExecute head types vals =
+      (head ++ execBitmap vals ++ [1]) ++ typeBytes types ++ encodeParamVals types vals := e0
+  have e3 : encodeExecute head types vals =
+      (head ++ execBitmap vals ++ [1] ++ typeBytes types) ++ encodeParamVals types vals ++ [] := by
+    rw [e0]; simp
+  have hlen : (encodeExecute head types vals).length =
+      10 + (vals.length + 7) / 8 + 1 + 2 * types.length + (encodeParamVals types vals).length := by
+    rw [e0]; simp only [List.length_append, hh, hbl, htl, List.length_cons, List.length_nil]
+  have hbm : goSlice (encodeExecute head types vals) hdrLen (hdrLen + (vals.length + 7) / 8) = .ok (execBitmap vals) := by
+    rw [e1, hdrLen_eq]
+    have := goSlice_append_mid head (execBitmap vals) ([1] ++ typeBytes types ++ encodeParamVals types vals)
+    rw [hh, hbl] at this
+    exact this
+  have hflag : goIndex (encodeExecute head types vals) (hdrLen + (vals.length + 7) / 8) = .ok 1 := by
+    rw [e1, hdrLen_eq]
+    unfold goIndex
+    have : (head ++ execBitmap vals ++ ([1] ++ typeBytes types ++ encodeParamVals types vals))[10 + (vals.length + 7) / 8]? = some 1 := by
+      rw [List.getElem?_append_right (by simp [hh, hbl])]
+      simp [hh, hbl]
+    rw [this]
+  have hpre : (head ++ execBitmap vals ++ [1]).length = hdrLen + (vals.length + 7) / 8 + 1 := by
+    simp only [List.length_append, hh, hbl, hdrLen_eq, List.length_cons, List.length_nil]
+  have htypes : readTypes (encodeExecute head types vals) vals.length (hdrLen + (vals.length + 7) / 8 + 1) =
+      .ok (types.map (·.1)) := by
+    have := readTypes_typeBytes (head ++ execBitmap vals ++ [1]) (encodeParamVals types vals) types hty
+    rw [hpre, hl] at this
+    rw [e2]
+    exact this
+  have hpre2 : (head ++ execBitmap vals ++ [1] ++ typeBytes types).length =
+      hdrLen + (vals.length + 7) / 8 + 1 + 2 * vals.length := by
+    simp only [List.length_append, hh, hbl, htl, hdrLen_eq, hl, List.length_cons, List.length_nil]
+  have hvals : readVals fo (encodeExecute head types vals) (execBitmap vals) (types.map (·.1)) 0
+      (hdrLen + (vals.length + 7) / 8 + 1 + 2 * vals.length) = .ok (boundAll fo types vals) := by
+    have := readVals_encode fo vals [] types vals (head ++ execBitmap vals ++ [1] ++ typeBytes types) 0 rfl hl hw
+    rw [hpre2] at this
+    rw [e3]
+    exact this
+  unfold getBindParameters
+  rw [if_neg (by omega)]
+  simp only []
+  rw [if_neg (by rw [hlen, hdrLen_eq]; omega), if_pos (by omega), hbm, Out.bind_ok, hflag, Out.bind_ok]
+  rw [if_neg (by decide)]
+  rw [if_neg (by rw [hlen, hdrLen_eq, hl]; omega), htypes, Out.bind_ok, hvals]
+  rfl
+
 end AcraModel.Wire.My
